@@ -3,9 +3,19 @@
    Model: Model/Relay.v (connection.go read loop / write path / Close + streamproxy.go), proofs: Proofs/RelayInv.v,
    Proofs/Relay.v. *)
 From Coq Require Import List NArith Bool.
-From MV Require Import Model.Relay Proofs.RelayInv Proofs.Relay.
+From MV Require Import Model.Relay Gen.RelaySrc Proofs.RelayInv Proofs.Relay Model.UrlBuild Proofs.UrlBuild.
 Import ListNotations.
 Open Scope N_scope.
+
+(* Tie to the source, re-read on every run (harness/cmd/relay/gen.go -> Gen/RelaySrc.v): the returns inside the
+   `if err != nil` block of connection.go doRead are exactly the three the model has (closed connection; time-out
+   without bytes; error other than io.EOF / time-out) and onRead(bytesRead) follows the block - so a Read returning
+   n > 0 together with io.EOF reaches onRead; the proxy's reaction to each close event of either connection (flush
+   and close the other side / close it without flush) is the model's table. *)
+Theorem c01_relay_source_shape :
+  RelaySrc_translator_ok = true /\ doread_eof_delivers = true /\
+  forall ev, up_reaction ev = Some (flushes ev) /\ down_reaction ev = Some (flushes ev).
+Proof. exact relay_source_shape. Qed.
 
 (* For EVERY event history (any interleaving of the two read loops; every Read result: bytes, bytes together with
    io.EOF, io.EOF alone, (0,nil), time-outs, other errors; the upstream connecting late or not at all; every raw
@@ -67,3 +77,63 @@ Print Assumptions c01_read_eof_delivers.
 Example c01_read_eof_example :
   c_trace (fst (rd (conn0 true) (conn0 true) [7; 8] REOF [])) = [TData [7; 8]; TClose RemoteClose].
 Proof. vm_compute. reflexivity. Qed.
+
+(* ======================================================================================================== *)
+(* C01 (HTTP/1 request URI clause) - "...reaches the other side with the same ... request URI (path and query
+   byte-for-byte)".  Model: Model/UrlBuild.v (buildUrlFromCtxVar + what the server stream stores for a received
+   target); the Go library functions url.PathUnescape, fasthttp's path normalisation and url.URL.RequestURI are
+   universally quantified: the statements hold whatever they compute. *)
+
+(* If the route did not rewrite the path (VarPath is still fasthttp's normalisation of VarPathOriginal), the rebuilt
+   request URI is VarPathOriginal - every escaped byte, '//', '/../', '*' as received - ("/" if it is empty),
+   followed by '?' and the query string iff the query string is non-empty. *)
+Theorem c01_url_identity :
+  forall (path_unescape : list N -> option (list N)) (norm request_uri : list N -> list N) po query,
+  build_url path_unescape norm request_uri (norm po) po query =
+  (if nilb po then [c_slash] else po) ++ (if nilb query then [] else c_qmark :: query).
+Proof. exact build_url_unrewritten. Qed.
+Print Assumptions c01_url_identity.
+
+(* "/a//b/../%2F%41?x=%20" as (pathOriginal, query), with a normalisation that changes the path *)
+Example c01_url_example :
+  build_url (fun _ => None) (fun _ => [47; 97]) (fun p => p) [47; 97]
+            [47; 97; 47; 47; 98; 47; 46; 46; 47; 37; 50; 70; 37; 52; 49] [120; 61; 37; 50; 48] =
+  [47; 97; 47; 47; 98; 47; 46; 46; 47; 37; 50; 70; 37; 52; 49; 63; 120; 61; 37; 50; 48].
+Proof. vm_compute. reflexivity. Qed.
+
+(* The full statement for received request targets: every origin-form target (starts with '/', no '#') is sent
+   upstream byte for byte.  It is FALSE for the code in the tree: a '?' followed by an empty query is dropped
+   ("/a?" is forwarded as "/a": injectCtxVarFromProtocolHeaders stores the query string only if it is non-empty
+   and buildUrlFromCtxVar appends '?' only for a non-empty query string). *)
+Definition c01_url_target_statement : Prop :=
+  forall (path_unescape : list N -> option (list N)) (norm request_uri : list N -> list N) t,
+  (exists r, t = c_slash :: r) -> ~ In c_hash t -> rebuild path_unescape norm request_uri t = t.
+
+Theorem c01_url_target_refuted : ~ c01_url_target_statement.
+Proof. exact url_target_refuted. Qed.
+Print Assumptions c01_url_target_refuted.
+
+(* The strongest true statement: exactly the targets with a non-empty path part, no fragment, and no '?' that is
+   followed by nothing come back byte for byte - whatever bytes the path and the query consist of. *)
+Theorem c01_url_target_partial :
+  forall (path_unescape : list N -> option (list N)) (norm request_uri : list N -> list N) t,
+  rebuild path_unescape norm request_uri t = t <-> reproducible t.
+Proof. exact rebuild_identity_iff. Qed.
+Print Assumptions c01_url_target_partial.
+
+(* and what happens to the others with a '?': the '?' is dropped, path unchanged *)
+Theorem c01_url_empty_query_dropped :
+  forall (path_unescape : list N -> option (list N)) (norm request_uri : list N -> list N) po,
+  po <> [] -> ~ In c_qmark po -> ~ In c_hash po ->
+  rebuild path_unescape norm request_uri (po ++ [c_qmark]) = po.
+Proof. exact rebuild_empty_query. Qed.
+Print Assumptions c01_url_empty_query_dropped.
+
+Example c01_url_target_example : (* "/a//b/../%2F?x=%20&y" and "*" are reproducible, "/a?" and "/a#f" are not *)
+  reproducible [47; 97; 47; 47; 98; 47; 46; 46; 47; 37; 50; 70; 63; 120; 61; 37; 50; 48; 38; 121] /\
+  reproducible [42] /\ ~ reproducible [47; 97; 63] /\ ~ reproducible [47; 97; 35; 102].
+Proof.
+  unfold reproducible. cbn. repeat split; try discriminate.
+  - intros (_ & _ & H). now apply H.
+  - intros (H & _). discriminate H.
+Qed.
